@@ -106,6 +106,9 @@ pub fn rule_forms() -> Vec<(&'static str, &'static str)> {
         // the same target text as the second form with the source names permuted (a result remembered under the
         // target's text and the arguments must not be reused)
         ("<B, A>", "::t::X<A, B>"),
+        // round 10 (C07-m19): a fixed argument given as a RELATIVE multi-segment path whose last segment is spelled
+        // like a source parameter (`m::B`): only a lone identifier is a parameter
+        ("<A, B>", "::t::X<A, m::B, B>"),
     ]
 }
 
